@@ -179,8 +179,12 @@ func pkcs5Padding(ciphertext []byte, blockSize int) []byte {
 
 func pkcs5Unpadding(src []byte, blockSize int) ([]byte, error) {
 	length := len(src)
+	if length == 0 {
+		return nil, ErrPaddingSize
+	}
+
 	unpadding := int(src[length-1])
-	if unpadding >= length || unpadding > blockSize {
+	if unpadding > length || unpadding > blockSize {
 		return nil, ErrPaddingSize
 	}
 
